@@ -166,7 +166,7 @@ IterEntry(ky, c, s) == [i |-> ky.i, k |-> ky.k, val |-> V(c.t, c.v), s |-> s,
                         m |-> IF IsMapper THEN c.m ELSE <<>>]
 CR_Iterate ==
     LET live == SelectSeq([p \in 1..Len(keys) |-> p], LAMBDA p : state[p] # CLEARED)
-    IN RL("list", [q \in 1..Len(live) |->
+    IN RL("#list", [q \in 1..Len(live) |->
                      IterEntry(keys[live[q]], values[live[q]], state[live[q]] = SET)])
 C_Iterate == ret' = CR_Iterate /\ UNCHANGED conc
 
@@ -190,7 +190,7 @@ C_GetMap(i, mk) == ret' = R(CR_GetMap(i, mk)) /\ UNCHANGED conc
 (* del_map() is a second get_map(): it returns the mapping and keeps it *)
 C_DelMap(i, mk) == ret' = R(CR_GetMap(i, mk)) /\ UNCHANGED conc
 
-CR_IterateMap(i) == LET d == values[i + 1].m IN RL("list", [p \in 1..Len(d) |-> d[p][1]])
+CR_IterateMap(i) == LET d == values[i + 1].m IN RL("#list", [p \in 1..Len(d) |-> d[p][1]])
 C_IterateMap(i) == ret' = CR_IterateMap(i) /\ UNCHANGED conc
 
 -----------------------------------------------------------------------------
@@ -241,7 +241,7 @@ MapPairs(f) == LET ks == SortedSeq(DOMAIN f) IN [p \in 1..Len(ks) |-> <<ks[p], f
 
 AR_Iterate ==
     LET idx == SortedSeq(DOMAIN aslot)
-    IN RL("list", [q \in 1..Len(idx) |->
+    IN RL("#list", [q \in 1..Len(idx) |->
             LET a == aslot[idx[q]] IN
             [i |-> a.key.i, k |-> a.key.k,
              val |-> IF IsMapper THEN V("dict", 0) ELSE a.val,
@@ -259,7 +259,7 @@ AR_GetMap(i, mk) == IF mk \in DOMAIN aslot[i].map THEN V("int", aslot[i].map[mk]
 A_GetMap(i, mk) == aret' = R(AR_GetMap(i, mk)) /\ UNCHANGED abst
 A_DelMap(i, mk) == aret' = R(AR_GetMap(i, mk)) /\ UNCHANGED abst
 
-AR_IterateMap(i) == RL("list", SortedSeq(DOMAIN aslot[i].map))
+AR_IterateMap(i) == RL("#list", SortedSeq(DOMAIN aslot[i].map))
 A_IterateMap(i) == aret' = AR_IterateMap(i) /\ UNCHANGED abst
 
 -----------------------------------------------------------------------------
@@ -273,9 +273,9 @@ EntryEq(x, e) == /\ x.i = e.i /\ x.k = e.k /\ x.s = e.s
 
 Match(op, r, a) ==
     CASE op = "add_map"     -> r.t = "int" /\ \A p \in 1..Len(a.l) : a.l[p] # r.v
-      [] op = "iterate"     -> /\ r.t = "list" /\ Len(r.l) = Len(a.l)
+      [] op = "iterate"     -> /\ r.t = "#list" /\ Len(r.l) = Len(a.l)
                                /\ \A q \in 1..Len(a.l) : \E p \in 1..Len(r.l) : EntryEq(r.l[p], a.l[q])
-      [] op = "iterate_map" -> r.t = "list" /\ Len(r.l) = Len(a.l) /\ Range(r.l) = Range(a.l)
+      [] op = "iterate_map" -> r.t = "#list" /\ Len(r.l) = Len(a.l) /\ Range(r.l) = Range(a.l)
       [] OTHER              -> r = a
 
 -----------------------------------------------------------------------------
